@@ -709,6 +709,8 @@ impl FilterBodyAction {
     //@| ensures old(self).in_error ==> r@ == data@ && final(self).in_error,
     //@|     // switching to pass-through must not drop what an earlier chunk left held back
     //@|     !old(self).in_error && final(self).in_error ==> r@ == chain_held(old(self).chain@) + data@,
+    //@|     // while the chain is live the output is the chain's (so an internal failure cannot go by without switching to pass-through for the chunks to come)
+    //@|     !old(self).in_error && !final(self).in_error ==> filter_fold(old(self).chain@, old(self).chain@.len() as int, data@) == Some(r@),
 
     // the public end(): pass-through mode yields nothing more; otherwise the flush of the whole chain (do_end's fold), and an error switches to pass-through
     //@@ fn src/filter/filter_body.rs :: impl FilterBodyAction / fn end -> r
